@@ -3,6 +3,7 @@
 -/
 import Cel.Model.Lex
 import Cel.Lemmas.Str
+set_option linter.unusedSimpArgs false
 namespace Cel.Lex
 open Cel.Str
 
@@ -344,5 +345,72 @@ theorem walk_encodeBytesBody (item : Re) (hi : ItemOk item) (qc : Nat) (hq : qc 
     have hb' := hexVal_hexDigitChar (c % 16) (by omega)
     exact ⟨by simp, fun r => hKq 92 _ hq92, fun r k w hk => hi.hex _ _ r k w ha.2 hb'.2 hk⟩
 
+
+/-! ### the terminals on a quoted body -/
+
+theorem rR_not_mem (x : Nat) (h : x = 34 ∨ x = 39) : (Cls.ranges [(114, 114), (82, 82)]).mem x = false := by
+  rcases h with rfl | rfl <;> decide
+
+/-- STRING_LIT on `'body'` -/
+theorem run_stringLit_sq (body : Text) (k : K) (v : Nat) (hw : Walk itemSQ 39 body) (hk : k [] = some v) :
+    run stringLit (39 :: (body ++ [39])) k = some v := by
+  have h := hw (fun t' => run (lit 39) t' k) [39] v (fun x r hx => by simp [hx]) (by simpa using hk)
+  simp only [stringLit, alts, seqs, rPrefix, manyLazy, run_alt, run_seq, run_opt, run_set_cons, rR_not_mem 39 (Or.inr rfl),
+    Bool.false_eq_true, if_false, orElse_none, run_lit_cons, if_true, run_star, h, orElse_some]
+
+/-- STRING_LIT on `"body"` -/
+theorem run_stringLit_dq (body : Text) (k : K) (v : Nat) (hw : Walk itemDQ 34 body) (hk : k [] = some v) :
+    run stringLit (34 :: (body ++ [34])) k = some v := by
+  have h := hw (fun t' => run (lit 34) t' k) [34] v (fun x r hx => by simp [hx]) (by simpa using hk)
+  have n : ¬ ((34:Nat) = 39) := by decide
+  simp only [stringLit, alts, seqs, rPrefix, manyLazy, run_alt, run_seq, run_opt, run_set_cons, rR_not_mem 34 (Or.inl rfl),
+    Bool.false_eq_true, if_false, orElse_none, run_lit_cons, if_neg n, if_true, run_star, h, orElse_some]
+
+/-- MLSTRING_LIT on `'''body'''` -/
+theorem run_mlstringLit_tsq (body : Text) (k : K) (v : Nat) (hw : Walk itemTSQ 39 body) (hk : k [] = some v) :
+    run mlstringLit (39 :: 39 :: 39 :: (body ++ [39, 39, 39])) k = some v := by
+  have h := hw (fun t' => run (lit 39) t' (fun t' => run (lit 39) t' (fun t' => run (lit 39) t' k))) [39, 39, 39] v
+    (fun x r hx => by simp [hx]) (by simpa using hk)
+  simp only [mlstringLit, alts, seqs, rPrefix, manyLazy, run_alt, run_seq, run_opt, run_set_cons, rR_not_mem 39 (Or.inr rfl),
+    Bool.false_eq_true, if_false, orElse_none, run_lit_cons, if_true, run_star, h, orElse_some]
+
+/-- MLSTRING_LIT on `"""body"""` -/
+theorem run_mlstringLit_tdq (body : Text) (k : K) (v : Nat) (hw : Walk itemTDQ 34 body) (hk : k [] = some v) :
+    run mlstringLit (34 :: 34 :: 34 :: (body ++ [34, 34, 34])) k = some v := by
+  have h := hw (fun t' => run (lit 34) t' (fun t' => run (lit 34) t' (fun t' => run (lit 34) t' k))) [34, 34, 34] v
+    (fun x r hx => by simp [hx]) (by simpa using hk)
+  have n : ¬ ((34:Nat) = 39) := by decide
+  simp only [mlstringLit, alts, seqs, rPrefix, manyLazy, run_alt, run_seq, run_opt, run_set_cons, rR_not_mem 34 (Or.inl rfl),
+    Bool.false_eq_true, if_false, orElse_none, run_lit_cons, if_neg n, if_true, run_star, h, orElse_some]
+
+/-- MLSTRING_LIT does not match a short-quoted literal whose body does not begin with the quote character -/
+theorem run_mlstringLit_short (qc : Nat) (hq : qc = 34 ∨ qc = 39) (body : Text) (k : K) (hh : body.head? ≠ some qc) :
+    run mlstringLit (qc :: (body ++ [qc])) k = none := by
+  have n : ¬ ((34:Nat) = 39) := by decide
+  have n' : ¬ ((39:Nat) = 34) := by decide
+  cases body with
+  | nil =>
+    rcases hq with rfl | rfl <;>
+    simp only [mlstringLit, alts, seqs, rPrefix, manyLazy, run_alt, run_seq, run_opt, run_set_cons, rR_not_mem _ (Or.inl rfl),
+      rR_not_mem _ (Or.inr rfl), Bool.false_eq_true, if_false, orElse_none, run_lit_cons, run_lit_nil, if_neg n, if_neg n', if_true,
+      List.nil_append]
+  | cons x xs =>
+    have hx : x ≠ qc := by intro e; apply hh; simp [e]
+    rcases hq with rfl | rfl <;>
+    simp only [mlstringLit, alts, seqs, rPrefix, manyLazy, run_alt, run_seq, run_opt, run_set_cons, rR_not_mem _ (Or.inl rfl),
+      rR_not_mem _ (Or.inr rfl), Bool.false_eq_true, if_false, orElse_none, run_lit_cons, if_neg n, if_neg n', if_neg hx, if_true,
+      List.cons_append]
+
+theorem bB_mem (x : Nat) (h : x = 98 ∨ x = 66) : (Cls.ranges [(98, 98), (66, 66)]).mem x = true := by
+  rcases h with rfl | rfl <;> decide
+
+/-- BYTES_LIT = `[bB]` then MLSTRING_LIT, else STRING_LIT -/
+theorem run_bytesLit (b : Nat) (hb : b = 98 ∨ b = 66) (t : Text) (k : K) :
+    run bytesLit (b :: t) k = orElse (run mlstringLit t k) (fun _ => run stringLit t k) := by
+  simp only [bytesLit, seqs, alts, run_seq, run_set_cons, bB_mem b hb, if_true, run_alt]
+
+
+theorem uU_mem (u : Nat) (hu : u = 117 ∨ u = 85) : (Cls.ranges [(117, 117), (85, 85)]).mem u = true := by
+  rcases hu with rfl | rfl <;> decide
 
 end Cel.Lex
